@@ -61,23 +61,6 @@ def accepts (mtch : String → String → Bool) (s : String) (f : Feature) : Pro
 instance (mtch : String → String → Bool) (s : String) (f : Feature) :
     Decidable (accepts mtch s f) := by unfold accepts; infer_instance
 
-/-- the reading of the code as it stands (known finding K19A): an unnamed clause is also
-satisfied by a qualifier *name* that matches. -/
-def clauseSatCode (mtch : String → String → Bool) (c : String × String) (f : Feature) : Prop :=
-  if c.1 = "" then (∃ v ∈ allValues f.props, mtch c.2 v = true) ∨ (∃ n ∈ allNames f.props, mtch c.2 n = true)
-  else ∃ v ∈ valuesOf c.1 f.props, c.2 = "" ∨ mtch c.2 v = true
-
-def acceptsCode (mtch : String → String → Bool) (s : String) (f : Feature) : Prop :=
-  (key s = "" ∨ f.key = key s) ∧ ∀ c ∈ clauses s, clauseSatCode mtch c f
-
-/-- the shape of K19A: an unnamed clause whose regexp matches one of the feature's qualifier
-names -/
-def nameHit (mtch : String → String → Bool) (s : String) (f : Feature) : Prop :=
-  ∃ c ∈ clauses s, c.1 = "" ∧ ∃ n ∈ allNames f.props, mtch c.2 n = true
-
-instance (mtch : String → String → Bool) (s : String) (f : Feature) :
-    Decidable (nameHit mtch s f) := by unfold nameHit; infer_instance
-
 /-- the `Props` values that `Props.Add` builds: every row has a name and at least one value,
 names are distinct (a repeated qualifier is one multi-valued row). -/
 def wfProps (ps : Props) : Prop := (∀ row ∈ ps, 2 ≤ row.length) ∧ (allNames ps).Nodup
